@@ -317,6 +317,40 @@ func checkHeadNormalizer(r *Report, rule string) {
 			empty := fs.holdsEmpty(T("param", "0"))
 			notBstr := len(fs.matchAll([]factPat{fp("!binop<==>(2, binop<>>>(*index($0, 0), 5))")}, nil)) > 0
 			modeErr := x.errTerm.Op == "call" && strings.HasPrefix(x.errTerm.S, "invoke:cbor.") || (x.errTerm.Op == "res" && x.errTerm.Args[0].Op == "call" && strings.HasPrefix(x.errTerm.Args[0].S, "invoke:cbor."))
+			if !(empty || notBstr || modeErr) {
+				// the refusal may be a prologue helper's: every failure exit of
+				// that helper is then one of the three, in the helper's own facts
+				call := x.errTerm
+				if call.Op == "res" && len(call.Args) == 1 {
+					call = call.Args[0]
+				}
+				if h := P.calleeOfTerm(call); h != nil && h != fn && errIndex(h) >= 0 {
+					m := map[string]*Term{}
+					for i, a := range call.Args {
+						m[itoa(int64(i))] = a
+					}
+					all, n := true, 0
+					for _, hx := range P.factsOf(h).exits {
+						if hx.kind != exitFailure {
+							continue
+						}
+						n++
+						hfs := factSet{}
+						for _, f := range hx.facts {
+							hfs.add(normFact(f.Pred.subst(m), f.Val))
+						}
+						he := hfs.holdsEmpty(T("param", "0"))
+						hn := len(hfs.matchAll([]factPat{fp("!binop<==>(2, binop<>>>(*index($0, 0), 5))")}, nil)) > 0
+						hm := strings.Contains(hx.errTerm.String(), "call<invoke:cbor.")
+						if !(he || hn || hm) {
+							all = false
+						}
+					}
+					if all && n > 0 {
+						empty = true // stands for "one of the three, established inside the helper"
+					}
+				}
+			}
 			o.check(empty || notBstr || modeErr, fmt.Sprintf("empty:%v not-bstr:%v mode-error:%v", empty, notBstr, modeErr), "a well-formed bstr can be refused: failure exit returning "+x.errTerm.String()+" is not guarded by len==0 / major type != 2 / a mode error")
 			continue
 		}
